@@ -1,4 +1,4 @@
-import RtenVerif.Lemmas.ShapeInfer
+import RtenVerif.Lemmas.ShapeInferRange
 
 /-!
 # C10 — Shape inference never contradicts execution (partial)
@@ -86,8 +86,6 @@ example : zipCycle addOp [.var "n" true] [.val 2, .val (-3)] = some [.add (.var 
 
 /-! ## T1 — `Equal` -/
 
-/-- `range` is sound for `e` under `σ` (this is C11.T2 for the real `SymExpr::range`). -/
-def RangeSound (σ : Env) (e : Sym) : Prop := ∀ v, e.eval σ = some v → e.range.1 ≤ v ∧ v ≤ e.range.2
 
 /-- **C10.T1-equal (0 branch)**: when `Equal` folds to the constant 0 because the ranges are
 disjoint, and the ranges are sound, the executed comparison is 0 (the operands differ). -/
